@@ -155,11 +155,13 @@ CLAIMED.update({
  'C15': dict(
     text='Machine-checked proofs (Lean 4) on a model of ApplicationStatus.update: the state loop equals the priority definition for every process list; '
          'required-based major / minor failure as defined; formula evaluation is total and sound (major = not of the Boolean semantics) for EVERY formula '
-         'shape within the interpreter stack budget, any other construct / unresolved / non-matching or invalid pattern gives a major failure, the only '
-         'exception that can escape is RecursionError; the result depends only on displayed states, expected-exit and required flags. Tie: lock-step with '
+         'shape within the interpreter stack budget, any other construct / unresolved / non-matching or invalid pattern gives a major failure; "rather than an '
+         'error" at FULL STRENGTH since repo fix 9cb9505: for every formula, process list and stack budget nothing raises (C15_formula_never_raises), strings the '
+         'parser gives up on are ignored like any string that does not parse (C15_not_formula); the result depends only on displayed states, expected-exit and required flags. Tie: lock-step with '
          'the real ApplicationStatus on generated process tables and formulas (grammar-directed + hostile AST shapes) with an audit-hook side-effect monitor.',
-    note='Partial: totality is refuted for deep nesting only (RecursionError / MemoryError: 3 known findings in a separate labelled stream); seven defects '
-         'repaired by 5f161cb. With a formula the minor failure is compared but not judged (statement silent). Trusted: CPython parser, re (leaf matching '
+    note='Partial: the denotation clause is refuted beyond the interpreter stack only (a formula nested deeper than the Python recursion limit is answered '
+         'major failure whatever it denotes: known finding formula-major:beyond-interpreter-stack, kernel-checked witness; the three exceptions it used to raise were '
+         'repaired by 9cb9505); seven defects repaired by 5f161cb; 589ba5c: the application status is evaluated again after a process information removal (found by the commander lock-step). With a formula the minor failure is compared but not judged (statement silent). Trusted: CPython parser, re (leaf matching '
          'supplied as data), the S-expression printer, harness/c15.py, Drv/C15.lean; regex termination is not covered.',
     technique='Lean 4 proofs (structural induction over formulas and process lists) + lock-step correspondence + Lean judge',
     design='7 (C15)'),
